@@ -80,7 +80,7 @@ impl StdioInterpreter {
         let mut analyzer = SourceFileAnalyzer::analyze(code);
         let messages = analyzer.take_messages();
         let lines = analyzer.take_source_file_lines();
-        self.interpreter = analyzer.into_interpreter();
+        self.interpreter = self.args.configure_interpreter(analyzer.into_interpreter());
         if self.args.skip_check {
             return Ok(());
         }
